@@ -869,3 +869,191 @@ func runPushTiny(t *testing.T, tape *Tape, w *World, variant string, steps int, 
 }
 
 func init() { engines["pushtiny"] = runPushTiny }
+
+// pushtoggle (C19): a busy push subscription is switched off and on again. Warm-up of fast
+// successes (the window grows), then an endpoint that answers nothing while more than ten
+// pushes are outstanding, then ModifyPushConfig with an empty endpoint (the pusher is stopped,
+// its outstanding POSTs are aborted), then the endpoint is configured again and answers
+// quickly: every message that was outstanding has to be POSTed again and acknowledged. The
+// oracle is deliberately coarse (the reference model is not consulted): "POSTed successfully
+// after push was switched on again, within a minute of virtual time".
+func runPushToggle(t *testing.T, tape *Tape, w *World, variant string, steps int, out *runOutcome) {
+	r := newSetupRun(tape, w, "push")
+	out.stats = r.Stats
+	defer func() {
+		out.trace, out.probes, out.hashes = r.Trace, r.M.Probes, r.Hashes
+		out.sample = sampleOf(r.Trace)
+	}()
+	if services.VerifHTTPPusher == nil {
+		panic("HARNESS: push overlay not available")
+	}
+	tape.Frame()
+	r.nTopics, r.nSubs = 1, 1
+	if v := r.xTopic(0); v != nil {
+		out.v = v
+		return
+	}
+	endpoint := "http://push.sim.invalid/endpoint"
+	if v := r.xSub(0, 0, func(c *SubCfg, q *pubsubpb.Subscription) {
+		c.Push, q.PushConfig = endpoint, &pubsubpb.PushConfig{PushEndpoint: endpoint}
+		c.MinB = time.Second
+		q.RetryPolicy = &pubsubpb.RetryPolicy{MinimumBackoff: durationpbNew(time.Second)}
+	}); v != nil {
+		out.v = v
+		return
+	}
+	sub := r.M.LiveSub(subName(0))
+	sub.attached = true
+	var firstViol *Violation
+	fail := func(v *Violation) {
+		if firstViol == nil && v != nil {
+			firstViol = v
+		}
+	}
+	ps := &pushSim{r: r, sub: sub, fail: fail, seen: map[string]int{}, nackRace: map[string]bool{}, lenient: true}
+	ps.pending = &ps.sink
+	phase := 0
+	ps.script = func(p *pushReq) {
+		switch phase {
+		case 1:
+			p.status = -1 // answers nothing until the request is aborted
+		default:
+			p.status = []int{200, 204}[tape.Intn(2)]
+		}
+	}
+	oldTransport := http.DefaultTransport
+	http.DefaultTransport = ps
+	defer func() { http.DefaultTransport = oldTransport }()
+	r.M.Concurrent = true
+	S.on = true
+	c := &conc{t: tape}
+	svc := services.VerifHTTPPusher()
+	if err := svc.Initialize(context.Background(), w.Client); err != nil {
+		panic("HARNESS: pusher init: " + err.Error())
+	}
+	ready := make(chan struct{})
+	pusherTask := c.spawn("pusher", func(ctx context.Context) {
+		if err := svc.Start(ctx, ready); err != nil && !errors.Is(err, context.Canceled) {
+			fail(viol("C19", "pusher_died", "http pusher service ended with %v", err))
+		}
+	})
+	publish := func(n, base int) []string {
+		var ids []string
+		for k := 0; k < n; k++ {
+			resp, err := w.Call(context.Background(), "Publish", &pubsubpb.PublishRequest{Topic: topicName(0), Messages: []*pubsubpb.PubsubMessage{{Data: r.genPayload(base + k)}}})
+			if err != nil {
+				fail(viol("C12", "status", "Publish: %v", err))
+				return ids
+			}
+			id, v := oneMessageID(resp)
+			if v != nil {
+				fail(v)
+				return ids
+			}
+			ids = append(ids, id)
+		}
+		return ids
+	}
+	succeeded := func(id string, since time.Time) bool {
+		for _, p := range ps.reqs {
+			if p.msgID == id && p.done && p.class != 2 && p.status > 0 && !p.arrived.Before(since) {
+				return true
+			}
+		}
+		return false
+	}
+	slices := func(max int, until func() bool) bool {
+		for k := 0; k < max && firstViol == nil; k++ {
+			if _, ok := c.run(2500, nil); !ok {
+				return false
+			}
+			if until() {
+				return true
+			}
+			time.Sleep(50 * time.Millisecond)
+			S.Settle()
+		}
+		return until()
+	}
+	finish := func() {
+		pusherTask.cancel()
+		c.finish()
+		_ = svc.Cleanup(context.Background())
+		S.Settle()
+		r.M.Concurrent = false
+		r.Stats["conc_steps"] += c.steps
+		r.Stats["push_requests"] += len(ps.reqs)
+	}
+	// ---- warm-up: the window grows with every fast success
+	n0 := 12 + tape.Intn(8)
+	t0 := time.Now()
+	warm := publish(n0, 8000)
+	if !slices(400, func() bool {
+		for _, id := range warm {
+			if !succeeded(id, t0) {
+				return false
+			}
+		}
+		return true
+	}) {
+		r.Stats["pushtoggle_void_warmup"]++
+		finish()
+		out.v = firstViol
+		return
+	}
+	// ---- the endpoint goes silent; more than ten pushes pile up
+	phase = 1
+	n1 := 13 + tape.Intn(10)
+	held := publish(n1, 8100)
+	if !slices(200, func() bool { return ps.inflight >= 11 }) {
+		r.Stats["pushtoggle_void_window"]++
+		finish()
+		out.v = firstViol
+		return
+	}
+	r.ev("%d pushes outstanding at a silent endpoint", ps.inflight)
+	// ---- push is switched off ...
+	if _, err := w.Call(context.Background(), "ModifyPushConfig", &pubsubpb.ModifyPushConfigRequest{Subscription: sub.Name, PushConfig: &pubsubpb.PushConfig{}}); err != nil {
+		fail(viol("C17", "update_rejected", "ModifyPushConfig (remove endpoint): %v", err))
+	}
+	slices(40+tape.Intn(40), func() bool { return false })
+	// ---- ... and on again, with a healthy endpoint
+	phase = 2
+	tOn := time.Now()
+	if _, err := w.Call(context.Background(), "ModifyPushConfig", &pubsubpb.ModifyPushConfigRequest{Subscription: sub.Name, PushConfig: &pubsubpb.PushConfig{PushEndpoint: endpoint}}); err != nil {
+		fail(viol("C17", "update_rejected", "ModifyPushConfig (set endpoint): %v", err))
+	}
+	r.ev("push switched off and on again")
+	all := func() bool {
+		for _, id := range held {
+			if !succeeded(id, tOn) {
+				return false
+			}
+		}
+		return true
+	}
+	slices(1200, all) // up to a minute of virtual time
+	r.Stats["pushtoggle_runs"]++
+	if firstViol == nil && !all() {
+		missing := 0
+		for _, id := range held {
+			if !succeeded(id, tOn) {
+				missing++
+			}
+		}
+		firstViol = viol("C19", "not_pushed_after_reenable", "%d of the %d messages that were outstanding when push was switched off have not been POSTed successfully %v after it was switched on again (%d requests since)", missing, len(held), time.Since(tOn), func() int {
+			n := 0
+			for _, p := range ps.reqs {
+				if !p.arrived.Before(tOn) {
+					n++
+				}
+			}
+			return n
+		}())
+	}
+	out.v = firstViol
+	SetEarlyVerdict(firstViol) // (a wedged pusher service would not let finish() return)
+	finish()
+}
+
+func init() { engines["pushtoggle"] = runPushToggle }
